@@ -7,6 +7,7 @@ import (
 	"path/filepath"
 
 	"verif/internal/asmgen"
+	"verif/internal/inpkg"
 	"verif/internal/sym"
 	"verif/spec/w65816"
 )
@@ -65,7 +66,7 @@ func (p *PropDef) fallbacks() []string {
 	if p.Fallbacks != nil {
 		return p.Fallbacks
 	}
-	return []string{"cvc5", "z3"}
+	return []string{"cvc5"}
 }
 
 func (p *PropDef) overlay() (map[string][]byte, error) {
@@ -133,6 +134,35 @@ func asmNativeOverlay(work string) string {
 	of := filepath.Join(work, "overlay.json")
 	os.WriteFile(of, b, 0o644)
 	return of
+}
+
+const (
+	c06SymPath = "/repo/asm/zz_verif_c06.go"
+	c06RegPath = verifDir + "/harness/all/zz_c06sym.go"
+)
+
+func c06Overlay() (map[string][]byte, error) {
+	return map[string][]byte{c06SymPath: []byte(inpkg.C06Sym), c06RegPath: []byte(inpkg.C06Reg)}, nil
+}
+
+func writeNativeOverlay(work string, ov map[string][]byte) string {
+	repl := map[string]string{}
+	i := 0
+	for path, content := range ov {
+		f := filepath.Join(work, fmt.Sprintf("overlay-%d.go", i))
+		i++
+		os.WriteFile(f, content, 0o644)
+		repl[path] = f
+	}
+	b, _ := json.Marshal(map[string]interface{}{"Replace": repl})
+	of := filepath.Join(work, "overlay.json")
+	os.WriteFile(of, b, 0o644)
+	return of
+}
+
+func c06NativeOverlay(work string) string {
+	ov, _ := c06Overlay()
+	return writeNativeOverlay(work, ov)
 }
 
 func asmUnclassified() []string {
@@ -268,6 +298,11 @@ func init() {
 				banks = []int{2, 4}
 				lens = []int{-1, 0, 1, 2, 3, 5}
 			}
+			// an image with banks above $7F (bus banks $80+ are ROM banks of their own in this API)
+			for _, l := range [][3]int{{2, -1, -1}, {3, 2, -1}, {1, 0, 3}} {
+				js = append(js, job("c10", "Reads", fmt.Sprintf("c10/reads/banks130/%d,%d,%d", l[0], l[1], l[2]), 130, int64(l[0]), int64(l[1]), int64(l[2])))
+				js = append(js, job("c10", "Writes", fmt.Sprintf("c10/writes/banks130/%d,%d,%d", l[0], l[1], l[2]), 130, int64(l[0]), int64(l[1]), int64(l[2])))
+			}
 			for _, b := range banks {
 				for _, n := range []int{0, 1, 4} {
 					js = append(js, job("c10", "LowHalf", fmt.Sprintf("c10/low-half/banks%d/len%d", b, n), int64(b), int64(n)))
@@ -361,7 +396,7 @@ func init() {
 	})
 	props = append(props, &PropDef{
 		ID: "C06", Title: "Finalize resolves every label reference to the right target or reports an error", Level: "model_checking",
-		Patterns: []string{"verif/harness/c06"}, PermuteMaps: true,
+		Patterns: []string{"verif/harness/c06", "github.com/alttpo/snes/asm"}, PermuteMaps: true, Overlay: c06Overlay, NativeOverlay: c06NativeOverlay,
 		Jobs:             c06Jobs,
 		Bounds:           []string{"programs of at most 7 emitter calls from the alphabet {Label L0/L1, relative branch to L0/L1 (all 7 branch methods), JMP_abs L0/L1, NOP, data block of 1,2,3,123..127 symbolic bytes}: every template in c06Jobs (forward/backward/multiple/missing/duplicate references, distances -130..+130 around both limits)", "base unset or any bank-contained 24-bit base (symbolic); data contents symbolic; every iteration order of the two label maps (<=3 entries) explored", "at most 2 labels and 3 references per label"},
 		Outside:          []string{"more than 2 labels / 3 references per label (the resolution loops repeat the same body - argued, not checked)", "the text of out-of-range error messages (contains symbolic addresses); only the failure itself is checked there"},
@@ -620,6 +655,13 @@ func c06Pad(k int) []int { // ops emitting exactly k pad bytes (k <= 130)
 
 func c06Jobs(tier string) []sym.Job {
 	var js []sym.Job
+	// symbolic-address jobs (in-package harness): shape = L0 defined | L1 defined<<1 | #S8 refs<<2 | #U16 refs<<4
+	for shape := 0; shape < 32; shape++ {
+		if shape>>2&3 == 3 {
+			continue
+		}
+		js = append(js, sym.Job{ID: fmt.Sprintf("c06/symbolic-addresses/shape%02d", shape), Pkg: "github.com/alttpo/snes/asm", Func: "ZZVerifFinalizeSym", Args: []int64{int64(shape)}})
+	}
 	seen := map[string]bool{}
 	add := func(name string, br, base int, ops ...int) {
 		if len(ops) > 15 {
@@ -832,6 +874,11 @@ func c14LoggerJobs(tier string) []sym.Job {
 		n *= 8
 	}
 	var js []sym.Job
+	long := 300
+	if tier == "thorough" {
+		long = 600
+	}
+	js = append(js, job("c14", "LoggerLongRun", fmt.Sprintf("c14/logger-long-run/budget<=%d", long), int64(long)))
 	for p := 0; p < n; p++ {
 		js = append(js, job("c14", "LoggerOnOff", fmt.Sprintf("c14/logger-on-off/k%d/prog%04o/budget<=%d", k, p, budget), int64(p), int64(k), int64(budget)))
 	}
